@@ -13,7 +13,7 @@ import re
 import verif
 from verif import Infra, log
 
-TRACE_CFG = "SPECIFICATION TraceSpec\nCONSTANT MaxBad = 6000\nCHECK_DEADLOCK FALSE\nPOSTCONDITION Post\n"
+TRACE_CFG = "SPECIFICATION TraceSpec\nCONSTANT MaxBad = 60000\nCHECK_DEADLOCK FALSE\nPOSTCONDITION Post\n"
 VALID_CFG = """SPECIFICATION TraceSpec
 CONSTANTS MaxLen = 0 MaxDepth = 100000000 Alpha = {}
 Mode = "c01"
@@ -48,18 +48,26 @@ def locus_of(b):
     plan, nest, onil, oempty, ck = o
     fk = js(d["fk"])
     tg = d["tg"] if isinstance(d["tg"], str) else "+".join(x for x in d["tg"] if x != "-")
+    oet = "oe-tag" if "omitempty" in tg else "-"
+    strt = "string-tag" if "string" in tg else ("dash" if tg == "dash" else "-")
+    tagged = "tags" if plan == "tags" else "notags"
     if b["kind"] == "fails":
         return "fails|%s|%s" % (msg_class(b["m"]), d["ctx"])
     if b["kind"] == "not-as-documented":
         if w in ("missing", "not-omitted"):
-            return "ref|%s|%s|tag=%s|%s|%s|val=%s|%s,%s,%s" % (w, fk, tg, d["ctx"], d["rel"], d["val"], plan, onil, oempty)
+            rel = d["rel"] if (w == "missing" and oempty == "-") else "-"
+            return "ref|%s|%s|%s|%s|%s|val=%s|%s,%s,%s" % (w, fk, oet, d["ctx"], rel, d["val"], tagged, onil, oempty)
         if d["ctx"] == "createkey":
             return "ref|%s|createkey|%s" % (w, plan)
-        return "ref|%s|%s|tag=%s|%s|%s,%s" % (w, fk, tg, d["ctx"], plan, nest)
+        if w == "duplicate":
+            return "ref|duplicate|%s" % d["ctx"]
+        if w == "extra-member":
+            return "ref|%s|%s|%s|%s,%s" % (w, fk, d["ctx"], plan, nest)
+        return "ref|%s|%s|%s|%s|%s" % (w, fk, strt, d["ctx"], tagged)
     if b["kind"] == "disagrees":
-        return "agree|%s|%s|tag=%s|%s|val=%s|%s,%s,%s,%s" % (w, fk, tg, d["ctx"], d["val"], plan, nest, onil, oempty)
+        return "agree|%s|%s|%s|val=%s|%s,%s" % (w, fk, d["ctx"], d["val"], onil, oempty)
     if b["kind"] == "differs-from-encoding/json":
-        return "gojson|%s|%s|tag=%s|%s|%s|val=%s" % (w, fk, tg, d["ctx"], d["rel"], d["val"])
+        return "gojson|%s|%s|%s|%s|val=%s" % (w, fk, tg, d["ctx"], d["val"])
     return "%s|%s" % (b["kind"], w)
 
 
@@ -94,7 +102,7 @@ def judge(ctx, cases, masks="one"):
         verif.write_ndjson(p, cases)
         cases = p
     trace, cx, valid = run_harness(ctx, cases, masks)
-    res = ctx.validate("TraceEncode", trace, cfg=TRACE_CFG, chunk=6000 if ctx.quick else 12000, heap="3g", timeout=1500)
+    res = ctx.validate("TraceEncode", trace, cfg=TRACE_CFG, chunk=26000, heap="3g", timeout=1500)
     ctx.cov["evaluations"] += res["n"] * NENC
     ctx.cov["events"] = ctx.cov.get("events", 0) + res["n"]
     recs = []
@@ -116,7 +124,7 @@ def judge(ctx, cases, masks="one"):
         ctx.cov["deviations_beyond_cap"] = ctx.cov.get("deviations_beyond_cap", 0) + res["nbad"] - len(res["bad"])
     # validity of every distinct JSON text the encoders produced: JsonText must accept it
     if os.path.getsize(valid) > 0:
-        vres = ctx.validate("TraceJson", valid, cfg=VALID_CFG, chunk=8000 if ctx.quick else 20000)
+        vres = ctx.validate("TraceJson", valid, cfg=VALID_CFG, chunk=8000 if ctx.quick else 30000)
         ctx.cov["distinct_outputs_validated"] = ctx.cov.get("distinct_outputs_validated", 0) + vres["n"]
         vlines = None
         for b in vres["bad"]:
